@@ -94,6 +94,7 @@ def c07(chk, tier):
 def c13(chk, tier):
     chk.explanation = "Static: R-PUSHPOP (visited-stack guard brackets the recursive call) + R-ARRAY on transclude.c."
     rules_misc.r_pushpop(P(), chk)
+    rules_misc.r_canonkey(P(), chk)
     rules_mem.r_array(P(), chk, only_units={"transclude.c"})
     # the manifest query must not expand the engine's own text (a later transclusion for another format would find no markers)
     from .report import Check
